@@ -129,16 +129,28 @@ func Connect(fd int, sa Sockaddr) error {
 	return ECONNREFUSED
 }
 
+// pick chooses one of the outcomes the configuration allows (outcome 0 is always allowed); only the
+// feasible ones are enumerated, so a restrictive configuration costs no dead paths.
+func pick(name string, legal [4]bool) int {
+	var idx [4]int
+	n := 0
+	for i, ok := range legal {
+		if ok {
+			idx[n] = i
+			n++
+		}
+	}
+	return idx[vf.Choice(name, n)]
+}
+
 func Accept(fd int) (int, Sockaddr, error) {
 	if !vkernel.IsOpen(fd) || vkernel.KindOf(fd) != vkernel.KListen {
 		return -1, nil, EBADF
 	}
-	switch vf.Choice("accept", 3) {
+	switch pick("accept", [4]bool{true, vkernel.K.Cfg.AllowAgain && !vkernel.K.FDs[fd].HupSeen, vkernel.K.Cfg.AllowIOErr, false}) {
 	case 1:
-		vf.Assume(vf.All(vkernel.K.Cfg.AllowAgain, !vkernel.K.FDs[fd].HupSeen))
 		return -1, nil, EAGAIN
 	case 2:
-		vf.Assume(vkernel.K.Cfg.AllowIOErr)
 		return -1, nil, syscall.ECONNABORTED
 	}
 	nfd, e := vkernel.Alloc(vkernel.KStream)
@@ -255,17 +267,14 @@ func Recvfrom(fd int, p []byte, flags int) (int, Sockaddr, error) {
 		return -1, nil, EBADF
 	}
 	f := &vkernel.K.FDs[fd]
-	switch vf.Choice("recvfrom", 4) {
+	// would-block is possible unless epoll has reported an error/hang-up condition for this socket (then the
+	// pending error or the data is returned)
+	switch pick("recvfrom", [4]bool{true, vkernel.K.Cfg.AllowAgain && !f.HupSeen, vkernel.K.Cfg.AllowIOErr, vkernel.K.Cfg.AllowEOF}) {
 	case 1:
-		// would-block, unless epoll has reported an error/hang-up condition for this socket (then the
-		// pending error or the data is returned)
-		vf.Assume(vf.All(vkernel.K.Cfg.AllowAgain, !f.HupSeen))
 		return -1, nil, EAGAIN
 	case 2:
-		vf.Assume(vkernel.K.Cfg.AllowIOErr)
 		return -1, nil, ECONNREFUSED
 	case 3:
-		vf.Assume(vkernel.K.Cfg.AllowEOF)
 		return 0, &SockaddrInet4{}, nil // empty datagram
 	}
 	dl := vf.Len("dgram.len")
@@ -291,15 +300,13 @@ func Sendto(fd int, p []byte, flags int, to Sockaddr) error {
 		return EBADF
 	}
 	f := &vkernel.K.FDs[fd]
-	switch vf.Choice("sendto", 4) {
+	again := vkernel.K.Cfg.AllowAgain && !f.HupSeen
+	switch pick("sendto", [4]bool{true, again, again, vkernel.K.Cfg.AllowIOErr}) {
 	case 1:
-		vf.Assume(vf.All(vkernel.K.Cfg.AllowAgain, !f.HupSeen))
 		return EAGAIN
 	case 2:
-		vf.Assume(vf.All(vkernel.K.Cfg.AllowAgain, !f.HupSeen))
 		return ENOBUFS
 	case 3:
-		vf.Assume(vkernel.K.Cfg.AllowIOErr)
 		return EPERM
 	}
 	f.Accepted = append(f.Accepted[:0], p...)
